@@ -72,6 +72,7 @@ void RateMonitoring::initialize(const double & expectedRate)
 double RateMonitoring::update(const Duration & duration)
 {
   assert(windowSize_ != 0);
+  std::lock_guard<std::mutex> lock(mutex_);
 
   lastPeriod_ = duration - lastDuration_.load();
   long long int lastPeriodInNanoSecond = durationToNanoSecond(lastPeriod_);
@@ -99,6 +100,7 @@ double RateMonitoring::getRate()const
 //-----------------------------------------------------------------------------
 bool RateMonitoring::timeout(const Duration & duration)
 {
+  std::lock_guard<std::mutex> lock(mutex_);
   if (!periods_.empty() &&
     durationToSecond(duration - lastDuration_.load()) > 0.5)
   {
